@@ -131,11 +131,14 @@ package provider
 //@ pure endpointAbs(e, host) = e.url != "" ? e.url : trimSuffix(host, "/") + ("/" + trimPrefix(e.path, "/"))
 //@ pure idpEntityID(p, r) = endpointAbs(p.metadataEndpoint, issuerOfCtx(ctxOf(r)))
 //@ pure storedBindingSupported() = arBinding(arReq) == PostBinding || arBinding(arReq) == RedirectBinding
+//@ pure userRec() = as(uiObj, "provider.Attributes")
+//@ pure userAttrs() = asrt().AttributeStatement[0].Attribute
 //@ pure carriesNoUserData() = respMsg().Assertion.Subject == nil && len(respMsg().Assertion.AttributeStatement) == 0 &&
 //@             respMsg().Assertion.Signature == nil && respMsg().Signature == nil && len(respMsg().Assertion.AuthnStatement) == 0
 //@
 //@ func (*provider.IdentityProvider).callbackHandleFunc
 //@   inline
+//@   modular (*provider.Attributes).GetSAML
 //@   property C09
 //@   writes fresh C15
 //@   requires wfIDP(p) && wfReq(r) && w != nil
@@ -169,6 +172,9 @@ package provider
 //@             asrt().Conditions.NotOnOrAfter == timefmt(clock + p.Expiration, p.TimeFormat) && scd().NotOnOrAfter == timefmt(clock + p.Expiration, p.TimeFormat)
 //@   ensures C03,C15.fresh-distinct-ids: succ() ==> idIndex(respMsg().Id) >= old(idCount) && idIndex(asrt().Id) >= old(idCount) && respMsg().Id != asrt().Id &&
 //@             respMsg().Id == idOf(idIndex(respMsg().Id)) && asrt().Id == idOf(idIndex(asrt().Id))
+//@   ensures C03.attribute-statement-is-exactly-the-user-record: succ() ==> gaCalls == old(gaCalls) + 1 && gaRecv == uiObj && len(asrt().AttributeStatement) == 1 &&
+//@             isIterOrder(gaTok, userRec().customAttributes) && len(userAttrs()) == nStd(userRec()) + iterlen(gaTok) &&
+//@             stdPrefix(userAttrs(), userRec()) && customSuffix(userAttrs(), userRec(), gaTok, iterlen(gaTok))
 //@   ensures C03.rest-of-the-view: succ() ==> respMsg().Version == "2.0" && asrt().Version == "2.0" && respMsg().Status.StatusMessage == "" && respMsg().Signature == nil &&
 //@             len(asrt().AuthnStatement) == 1 && asrt().AuthnStatement[0].AuthnInstant == asrt().IssueInstant && asrt().AuthnStatement[0].SessionIndex == asrt().Id &&
 //@             len(asrt().AttributeStatement) == 1
@@ -314,9 +320,38 @@ package provider
 //@   loop 1 invariant range: -1 <= $ri && $ri < len(metadata.AttributeService)
 //@   loop 1 invariant none-so-far: (forall j :: 0 <= j && j <= $ri ==> metadata.AttributeService[j].Location != request.Destination)
 //@
+//@ ## C12: the attribute filter. A = the user's attribute list (result of GetSAML), Q = the requested attributes, P = the list put into the
+//@ ## assertion. None requested: P is A. Otherwise (set semantics): every element of P is an element of A matching some requested
+//@ ## attribute in Name and NameFormat, and every such element of A is in P.
+//@ pure attrMatch(x, q) = x.Name == q.Name && x.NameFormat == q.NameFormat
+//@ pure inP(p, x) = exists i :: 0 <= i && i < len(p) && p[i] == x
+//@ pure subsetOfA(p, a, jmax) = forall i :: 0 <= i && i < len(p) ==> (exists j :: 0 <= j && j <= jmax && p[i] == a[j])
+//@ pure eachMatches(p, q) = forall i :: 0 <= i && i < len(p) ==> (exists k :: 0 <= k && k < len(q) && attrMatch(p[i], q[k]))
+//@ pure allMatching(p, a, q, jmax) = forall j, k :: 0 <= j && j <= jmax && 0 <= k && k < len(q) && attrMatch(a[j], q[k]) ==> inP(p, a[j])
 //@ func provider.makeAttributeQueryResponse
 //@   inline
+//@   modular (*provider.Attributes).GetSAML
 //@   property C12
+//@   requires attributes != nil && attrsInv(attributes)
+//@   ensures C12.filter-input-is-the-user-record: gaCalls == old(gaCalls) + 1 && gaRecv == attributes && base(#attrsSaml) == gaBase && len(#attrsSaml) == gaLen
+//@   ensures C12.all-attributes-when-none-requested: len(queriedAttrs) == 0 ==> len(result.Assertion.AttributeStatement) == 1 &&
+//@             len(result.Assertion.AttributeStatement[0].Attribute) == len(#attrsSaml) &&
+//@             (forall i :: 0 <= i && i < len(#attrsSaml) ==> result.Assertion.AttributeStatement[0].Attribute[i] == #attrsSaml[i])
+//@   ensures C12.only-attributes-of-the-user: len(queriedAttrs) > 0 ==> len(result.Assertion.AttributeStatement) == 1 &&
+//@             subsetOfA(result.Assertion.AttributeStatement[0].Attribute, #attrsSaml, len(#attrsSaml) - 1)
+//@   ensures C12.only-attributes-matching-a-requested-one: len(queriedAttrs) > 0 ==> eachMatches(result.Assertion.AttributeStatement[0].Attribute, queriedAttrs)
+//@   ensures C12.every-attribute-matching-a-requested-one: len(queriedAttrs) > 0 ==>
+//@             allMatching(result.Assertion.AttributeStatement[0].Attribute, #attrsSaml, queriedAttrs, len(#attrsSaml) - 1)
+//@   canary C12.canary-filter-drops-everything: len(result.Assertion.AttributeStatement[0].Attribute) == 0
+//@   loop 1 invariant C12.copied-so-far: len(#providedAttrs) == $ri + 1 && (forall i :: 0 <= i && i <= $ri ==> #providedAttrs[i] == #attrsSaml[i])
+//@   loop 2 invariant C12.outer-subset: subsetOfA(#providedAttrs, #attrsSaml, $ri)
+//@   loop 2 invariant C12.outer-each-matches: eachMatches(#providedAttrs, queriedAttrs)
+//@   loop 2 invariant C12.outer-every-matching: allMatching(#providedAttrs, #attrsSaml, queriedAttrs, $ri)
+//@   loop 3 invariant C12.inner-range: -1 <= $ri2 && $ri2 + 1 < len(#attrsSaml)
+//@   loop 3 invariant C12.inner-subset: subsetOfA(#providedAttrs, #attrsSaml, $ri2 + 1)
+//@   loop 3 invariant C12.inner-each-matches: eachMatches(#providedAttrs, queriedAttrs)
+//@   loop 3 invariant C12.inner-every-matching-before: allMatching(#providedAttrs, #attrsSaml, queriedAttrs, $ri2)
+//@   loop 3 invariant C12.inner-every-matching-current: forall k :: 0 <= k && k <= $ri && attrMatch(#attrsSaml[$ri2 + 1], queriedAttrs[k]) ==> inP(#providedAttrs, #attrsSaml[$ri2 + 1])
 //@   enter mqCalls = mqCalls + 1
 //@   enter mqReqID = requestID
 //@   enter mqIssuer = issuer
@@ -350,10 +385,52 @@ package provider
 //@   ensures C10.fault-means-error-reply: faulted ==> httpError() && emitCode >= 500
 //@   canary C12.canary-never-answered: !answered()
 //@ ## ---- user attributes ----
+//@ ## C03/C12: the attribute list is exactly the user's record - the non-empty standard fields in fixed order, then every custom
+//@ ## attribute exactly once (in the order tok of the map iteration), each with the record's own value list (same backing
+//@ ## array and length, so nothing is added, dropped, reordered or altered)
+//@ pure b2i(c) = c ? 1 : 0
+//@ pure nEmail(a) = b2i(a.email != "")
+//@ pure nSur(a) = nEmail(a) + b2i(a.surname != "")
+//@ pure nGiven(a) = nSur(a) + b2i(a.givenName != "")
+//@ pure nFull(a) = nGiven(a) + b2i(a.fullName != "")
+//@ pure nUser(a) = nFull(a) + b2i(a.username != "")
+//@ pure nStd(a) = nUser(a) + b2i(a.userID != "")
+//@ pure basicAttr(x, name, v) = x != nil && x.Name == name && x.NameFormat == "urn:oasis:names:tc:SAML:2.0:attrname-format:basic" && x.FriendlyName == "" &&
+//@             len(x.AttributeValue) == 1 && x.AttributeValue[0] == v
+//@ pure stdPrefix(s, a) = (a.email != "" ==> basicAttr(s[0], "Email", a.email)) && (a.surname != "" ==> basicAttr(s[nEmail(a)], "SurName", a.surname)) &&
+//@             (a.givenName != "" ==> basicAttr(s[nSur(a)], "FirstName", a.givenName)) && (a.fullName != "" ==> basicAttr(s[nGiven(a)], "FullName", a.fullName)) &&
+//@             (a.username != "" ==> basicAttr(s[nFull(a)], "UserName", a.username)) && (a.userID != "" ==> basicAttr(s[nUser(a)], "UserID", a.userID))
+//@ pure customAttr(x, c, k) = x != nil && c != nil && x.Name == k && x.FriendlyName == c.FriendlyName && x.NameFormat == c.NameFormat &&
+//@             base(x.AttributeValue) == base(c.AttributeValue) && len(x.AttributeValue) == len(c.AttributeValue)
+//@ pure customSuffix(s, a, tok, n) = forall j :: 0 <= j && j < n ==> customAttr(s[nStd(a) + j], lookup(a.customAttributes, mapkeyat(tok, j)), mapkeyat(tok, j))
 //@ func (*provider.Attributes).GetSAML
 //@   inline
 //@   property C09
+//@   requires a != nil && attrsInv(a)
+//@   leave gaTok = $mtok
+//@   fresh result
+//@   enter gaCalls = gaCalls + 1
+//@   enter gaRecv = a
+//@   leave gaBase = base(result)
+//@   leave gaLen = len(result)
+//@   leave gaVer = msgver
+//@   ensures C09,C03,C12.elements-non-nil: len(result) >= 0 && (forall i :: 0 <= i && i < len(result) ==> result[i] != nil)
+//@   ensures C09,C15.elements-are-new-objects: forall i :: 0 <= i && i < len(result) ==> fresh(result[i])
+//@   ensures C03,C12.standard-attributes-are-the-non-empty-fields-in-order: len(result) >= nStd(a) && stdPrefix(result, a)
+//@   ensures C03,C12.every-custom-attribute-exactly-once-with-its-own-values: isIterOrder($mtok, a.customAttributes) &&
+//@             len(result) == nStd(a) + iterlen($mtok) && customSuffix(result, a, $mtok, iterlen($mtok))
+//@   canary C03.canary-no-custom-attributes: len(result) == nStd(a)
 //@   loop 1 invariant elements-non-nil: len(#attrs) >= 0 && (forall i :: 0 <= i && i < len(#attrs) ==> #attrs[i] != nil)
+//@   loop 1 invariant C15.elements-new-so-far: forall i :: 0 <= i && i < len(#attrs) ==> fresh(#attrs[i])
+//@   loop 1 invariant C03,C12.std-email-kept: a.email != "" ==> basicAttr(#attrs[0], "Email", a.email)
+//@   loop 1 invariant C03,C12.std-surname-kept: a.surname != "" ==> basicAttr(#attrs[nEmail(a)], "SurName", a.surname)
+//@   loop 1 invariant C03,C12.std-givenname-kept: a.givenName != "" ==> basicAttr(#attrs[nSur(a)], "FirstName", a.givenName)
+//@   loop 1 invariant C03,C12.std-fullname-kept: a.fullName != "" ==> basicAttr(#attrs[nGiven(a)], "FullName", a.fullName)
+//@   loop 1 invariant C03,C12.std-username-kept: a.username != "" ==> basicAttr(#attrs[nFull(a)], "UserName", a.username)
+//@   loop 1 invariant C03,C12.std-userid-kept: a.userID != "" ==> basicAttr(#attrs[nUser(a)], "UserID", a.userID)
+//@   loop 1 invariant C03,C12.count-so-far: len(#attrs) == nStd(a) + $mi + 1
+//@   loop 1 invariant C03,C12.one-entry-per-key-so-far: forall j :: 0 <= j && j <= $mi ==>
+//@             customAttr(#attrs[len(#attrs) - 1 - $mi + j], lookup(a.customAttributes, mapkeyat($mtok, j)), mapkeyat($mtok, j))
 //@
 //@ pure wfProvider(p) = p != nil && p.conf != nil && p.conf.IDPConfig != nil && p.storage != nil && p.metadataEndpoint != nil && wfIDP(p.identityProvider)
 //@ func provider.healthHandler
